@@ -258,64 +258,73 @@ def nullg(run, p, kc):
     run.floor('C09-NULLG', len(kc) + 1, 11)
 
 
+def load_dict(p, d):
+    """DatasetConstraints().initialize_from_dict(d), evaluated -> (fields {name: {kind: {attr: value}}}, metadata attrs, warnings, error)"""
+    import datetime as dt
+    from ..pyeval import Interp, Obj, Unsupported, Raised, pure_sys
+    c = p.cls('DatasetConstraints')
+    warned = []
+
+    def fake_print(*a, **k):
+        warned.append(' '.join(str(x) for x in a))
+    fake_print._pyeval_model = True
+    I = Interp(p)
+    I.safe_modules = {'datetime', 're'}
+    I.extra_names.update({'datetime': dt, 'print': fake_print, 'sys': pure_sys()})
+    o = Obj(c)
+    err = None
+    try:
+        I.call(c.methods['__init__'], [], selfobj=o)
+        I.call(c.methods['initialize_from_dict'], [d], selfobj=o)
+    except Raised as e:
+        err = str(e)
+    except Unsupported as e:
+        raise AnalysisError('initialize_from_dict is not evaluable: %s' % e)
+    fields = {}
+    fo = o.attrs.get('fields')
+    for name, fc in (fo.items.items() if fo is not None else ()):
+        cs = fc.attrs.get('constraints')
+        cs = cs.items if hasattr(cs, 'attrs') else cs
+        fields[name] = {k: dict(v.attrs) for k, v in cs.items()}
+    meta = {k: v for k, v in o.attrs.items() if k != 'fields'}
+    return fields, meta, warned, err
+
+
 def unknown(run, p):
-    run.rule('C09-UNKNOWN', 'an unknown constraint kind neither raises nor adds a constraint; keys starting with # are not even warned about; '
-                            'stored values are tested against None, never for truthiness (0, "" and false are legitimate values)')
+    run.rule('C09-UNKNOWN', 'the loader, evaluated on constraint dictionaries: an unknown constraint kind neither raises nor adds a '
+                            'constraint, and is warned about unless its key starts with #; the known kinds next to it load; stored '
+                            'values that are false in Python (0, "", false, an empty list) load as they are, for constraints and '
+                            'metadata alike')
     f = p.method('DatasetConstraints', 'initialize_from_dict')
-    loop = None
-    for x in ast.walk(f.node):
-        if isinstance(x, ast.For) and isinstance(x.target, ast.Tuple) and [getattr(e, 'id', None) for e in x.target.elts][:1] == ['kind']:
-            loop = x
-    if loop is None:
-        raise AnalysisError('initialize_from_dict: loop over (kind, value) not found')
-    # the name the constructor looked up for this kind is bound to
-    ctor = None
-    for st in ast.walk(loop):
-        if isinstance(st, ast.Assign) and isinstance(st.value, ast.Call) and norm(st.value.func).endswith('.get') and \
-                'FIELD_CONSTRAINTS_MAP' in norm(st.value.func) and isinstance(st.targets[0], ast.Name):
-            ctor = st.targets[0].id
-    if ctor is None:
-        raise AnalysisError('initialize_from_dict: lookup of the constructor for a kind not found')
-    gm = GuardMap(f.node)
-
-    def unknown_arm(node):
-        """Reached only when no constructor was found for the kind (else arm, or code after `if ctor: ...; continue`)."""
-        return any(g.kind == 'if' and guard_requires(g.test, g.pol, lambda e, pol: isinstance(e, ast.Name) and e.id == ctor and not pol)
-                   for g in gm.chain(node) or ())
-
-    def known_arm(node):
-        return any(g.kind == 'if' and guard_requires(g.test, g.pol, lambda e, pol: isinstance(e, ast.Name) and e.id == ctor and pol)
-                   for g in gm.chain(node) or ())
-    inloop = [x for st in loop.body for x in ast.walk(st)]
-    raises = [x for x in inloop if isinstance(x, ast.Raise) and not known_arm(x)]
-    appends = [x for x in inloop if isinstance(x, ast.Call) and isinstance(x.func, ast.Attribute) and x.func.attr in ('append', 'add_field')
-               and not known_arm(x)]
-    run.ob('C09-UNKNOWN', '%s::%s::unknown-arm' % (f.rel, f.short), not raises and not appends,
-           'paths on which no constructor was found for the kind: %d raise, %d stores' % (len(raises), len(appends)), fn=f, node=loop)
-    warns = [x for x in inloop if isinstance(x, ast.Call) and getattr(x.func, 'id', '') in ('warn', 'print') and unknown_arm(x)]
-    ok = bool(warns) and all(any(g.kind == 'if' and guard_requires(g.test, g.pol, lambda e, pol: (not pol) and "startswith('#')" in ast.unparse(e))
-                                 for g in gm.chain(w) or ()) for w in warns)
-    run.ob('C09-UNKNOWN', '%s::%s::hash-keys' % (f.rel, f.short), ok, 'the warning is skipped for keys starting with #', fn=f,
-           node=warns[0] if warns else None)
-    # truthiness of stored values
-    valvars = set()
-    for x in ast.walk(f.node):
-        if isinstance(x, ast.For) and isinstance(x.target, ast.Tuple) and len(x.target.elts) == 2 and \
-                isinstance(x.iter, ast.Call) and isinstance(x.iter.func, ast.Attribute) and x.iter.func.attr == 'items':
-            if isinstance(x.target.elts[1], ast.Name):
-                valvars.add(x.target.elts[1].id)
+    d = {'fields': {'a': {'type': 'int', 'min': 1, 'bogus': 3, '#note': 'x', 'max': {'value': 7, 'precision': 'closed'}, '#': None},
+                    'e': {'frob': 1, '#why': 'only unknown kinds'}},
+         'creation_metadata': {'source': 'x', 'bogus': 1}}
+    fields, meta, warned, err = load_dict(p, d)
+    got = {k: sorted(v) for k, v in fields.items()}
+    ok = err is None and got.get('a') == ['max', 'min', 'type'] and not got.get('e') and 'bogus' not in meta
+    run.ob('C09-UNKNOWN', '%s::%s::unknown-arm' % (f.rel, f.short), ok,
+           'unknown kinds next to known ones: %s' % ('the loader raises (%s)' % err if err else 'constraints loaded %s' % got), fn=f)
+    hashes = [w for w in warned if '#' in w]
+    named = all(any(k in w for w in warned) for k in ('bogus', 'frob'))
+    run.ob('C09-UNKNOWN', '%s::%s::hash-keys' % (f.rel, f.short), err is None and not hashes and named,
+           'warnings given: %s' % warned, fn=f)
+    d = {'fields': {'z': {'type': 'int', 'min': 0, 'max': 0.0, 'max_nulls': 0, 'no_duplicates': False, 'allowed_values': [], 'min_length': 0,
+                          'max_length': 0, 'rex': []},
+                    's': {'type': 'string', 'allowed_values': [''], 'min': ''}},
+         'creation_metadata': {'n_records': 0, 'n_selected': 0, 'source': '', 'dataset': None}}
+    fields, meta, warned, err = load_dict(p, d)
     bad = []
-    for x in ast.walk(f.node):
-        tests = []
-        if isinstance(x, (ast.If, ast.IfExp, ast.While)):
-            tests = [x.test]
-        for t in tests:
-            for y in _truthy_names(t):
-                if y.id in valvars and y.id != 'c':
-                    bad.append(y)
-    run.ob('C09-UNKNOWN', '%s::%s::falsy-values' % (f.rel, f.short), not bad,
-           'stored values %s are tested with `is None` only' % sorted(valvars - {'c'}) if not bad else
-           'stored value `%s` is tested for truthiness: 0, "" or false in the file would be dropped' % bad[0].id, fn=f, node=bad[0] if bad else None)
+    for name, cs in d['fields'].items():
+        for kind, v in cs.items():
+            gotv = fields.get(name, {}).get(kind, {'value': '<not loaded>'}).get('value')
+            if gotv != v or type(gotv) is not type(v):
+                bad.append('%s.%s = %r loads as %r' % (name, kind, v, gotv))
+    for k, v in d['creation_metadata'].items():
+        if v is not None and (meta.get(k) != v or type(meta.get(k)) is not type(v)):
+            bad.append('metadata %s = %r loads as %r' % (k, v, meta.get(k)))
+    run.ob('C09-UNKNOWN', '%s::%s::falsy-values' % (f.rel, f.short), err is None and not bad,
+           'values that are false in Python %s' % ('load as they are' if err is None and not bad else
+                                                    'are dropped or changed: %s' % (err or '; '.join(bad[:3]))), fn=f)
     run.floor('C09-UNKNOWN', 3, 3)
 
 
